@@ -1127,6 +1127,156 @@ def _work(job):
     return out.n, list(out.viol.values())
 
 
+# ---------------------------------------------------------------------------------------------
+# histories of uses of one class / layout object (spec/DataLayoutHist.tla)
+# ---------------------------------------------------------------------------------------------
+def _plain_init(node, init, members=True):
+    """DataLayout initialiser of a plain (non-class) field -> Python"""
+    if is_leaf(node):
+        return make_enum(node)(init) if node["k"] == "enum" and members else init
+    items = [(pos, _plain_init(sub(node, pos), v, members)) for pos, v in init]
+    if node["k"] == "array":
+        if [p_ for p_, _ in items] == list(range(1, node["n"] + 1)):
+            return [x for _, x in items]
+        return {p_ - 1: x for p_, x in items}
+    return {pykey(node, pos): x for pos, x in items}
+
+
+def _class_init(C, init, none=False):
+    """initialiser of a class (nested class fields are built by the nested class) -> Python dict / None"""
+    if none:
+        return None
+    lay = C["lay"]
+    d = {}
+    for pos, v in init:
+        sc = C["sub"][pos - 1]
+        d[pykey(lay, pos)] = _class_init(sc, v) if sc["k"] != "none" else _plain_init(sub(lay, pos), v)
+    return d
+
+
+def _build_class(C):
+    """a FRESH class / layout object for the class record C"""
+    from amaranth.lib import data
+    lay = C["lay"]
+    if C["k"] == "plain":
+        return build_shape(lay)
+    base = data.Struct if C["k"] == "cstruct" else data.Union
+    ann, ns = {}, {}
+    for i, f in enumerate(lay["fields"]):
+        sc = C["sub"][i]
+        ann[f["name"]] = _build_class(sc) if sc["k"] != "none" else build_shape(f["sh"])
+        has, dv = C["d"][i]
+        if has:
+            ns[f["name"]] = _class_init(sc, dv) if sc["k"] != "none" else _plain_init(f["sh"], dv)
+    ns["__annotations__"] = ann
+    return type(base)("C15Hist", (base,), ns)
+
+
+def _paths(node, prefix=()):
+    """python keys of Paths(node) in DataLayout's order (pre-order)"""
+    out = []
+    if is_leaf(node):
+        return out
+    for pos in range(1, nf(node) + 1):
+        k = prefix + (pykey(node, pos),)
+        out.append(k)
+        out += _paths(sub(node, pos), k)
+    return out
+
+
+def _do_step(S, C, st, paths):
+    """performs one step on the class object S; returns (as_bits, values of all fields read back)"""
+    from amaranth.hdl import Signal
+    from amaranth.sim import Simulator
+    from amaranth.hdl import Module
+    init = _class_init(C, st["init"], st["none"])
+    if st["op"] == "const":
+        c = S.const(init)
+    elif st["op"] == "from_bits":
+        c = S.from_bits(st["bits"])
+    elif st["op"] == "signal":
+        sig = Signal(S) if st["none"] else Signal(S, init=init)
+        c = S.from_bits(sig.as_value().init)
+    else:
+        box = []
+        sim = Simulator(Module())
+
+        async def tb(ctx):
+            v = Signal(S)
+            ctx.set(v, init)
+            box.append(ctx.get(v))
+        sim.add_testbench(tb)
+        sim.run()
+        c = box[0]
+    return c.as_bits(), tuple(_num(_walk(c, k)) for k in paths)
+
+
+def check_history(st, out, opts):
+    C, hist = st["cls"], st["hist"]
+    desc = "%s %s with defaults %r" % ({"cstruct": "data.Struct", "cunion": "data.Union", "plain": "layout"}[C["k"]],
+                                        describe(C["lay"]), _class_init(C, [(i + 1, d[1]) for i, d in enumerate(C["d"]) if d[0]]))
+    kind = {"cstruct": "Struct", "cunion": "Union", "plain": "StructLayout"}[C["k"]]
+    paths = _paths(C["lay"])
+    S = _build_class(C)
+    out.count("histories")
+    empty = {"op": "const", "init": (), "none": False}
+    first = None
+    for k, step in enumerate(list(hist) + [None]):
+        last = step is None
+        try:
+            if last:      # the declared defaults at the end of the history: a fresh const({}) as at the beginning
+                got = _do_step(S, C, empty, paths)
+                if got != first:
+                    out.violation({"clause": "construction_depends_on_history", "class_kind": kind, "op": "const_empty_at_end"},
+                                  "%s: const({}) before the history %r gave %r, after it %r" % (
+                                      desc, [(h["op"], _class_init(C, h["init"], h["none"])) for h in hist], first, got), C["lay"])
+                break
+            if k == 0:
+                first = _do_step(S, C, empty, paths)
+            want = (step["bits"], tuple(step["vals"]))
+            got = _do_step(S, C, step, paths)
+            out.count("history_steps")
+            if got != want:
+                fresh = _do_step(_build_class(C), C, step, paths)
+                clause = "construction_depends_on_history" if fresh == want else "class_construction"
+                out.violation({"clause": clause, "class_kind": kind, "op": step["op"]},
+                              "%s: step %d of the history %r gives (as_bits, fields) = %r, specification %r; the same step on a "
+                              "fresh class gives %r" % (desc, k + 1, [(h["op"], _class_init(C, h["init"], h["none"])) for h in hist],
+                                                        got, want, fresh), C["lay"])
+        except MachineryError:
+            raise
+        except Exception as e:
+            out.violation({"clause": "class_construction", "class_kind": kind, "op": "end" if last else step["op"], "error": _exc(e)},
+                          "%s: step %d of the history %r raised %r" % (
+                              desc, k + 1, [(h["op"], _class_init(C, h["init"], h["none"])) for h in hist], e), C["lay"])
+            break
+
+
+def _work_hist(job):
+    path, ranges, opts = job
+    warnings.simplefilter("ignore")
+    out = Out()
+    with open(path, "rb") as f:
+        for a, b in ranges:
+            f.seek(a)
+            st = tlaval.parse_conj(f.read(b - a).decode())
+            if len(st["hist"]) == opts["max_hist"]:
+                check_history(st, out, opts)
+    return out.n, list(out.viol.values())
+
+
+HIST_CFG_EXTRA = """CONSTANTS
+ MaxHist = %d
+ HistMutant = "%s"
+"""
+
+
+def hist_cfg(p, max_hist, mutant=""):
+    base = cfg_text(dict(p, EnumClasses=[], FlagTier="none"), spec="HSpec", invariants=["HistoryFree", "OmittedAreDefaults"])
+    return base.replace("CHECK_DEADLOCK", HIST_CFG_EXTRA % (max_hist, mutant) + "CHECK_DEADLOCK").replace(
+        "INVARIANT HistoryFree", "INVARIANT HistoryFree", 1)
+
+
 # =============================================================================================
 # stages
 # =============================================================================================
@@ -1186,11 +1336,16 @@ def random_tree(rng, depth, budget):
     return tree(depth, budget)
 
 
-def dispatch(ctx, dump, opts, chunk, acc):
+def dispatch(ctx, dump, opts, chunk, acc, fn=None):
     ranges = index_dump(dump)
     jobs = [(dump, ranges[i:i + chunk], opts) for i in range(0, len(ranges), chunk)]
+    if fn is not None:
+        res = pmap(fn, jobs)
+    else:
+        res = None
     # big states last in a chunk does not matter; interleave so that every worker gets a mix
-    res = pmap(_work, jobs)
+    if res is None:
+        res = pmap(_work, jobs)
     total = {}
     for n, viol in res:
         for k, v in n.items():
@@ -1252,6 +1407,17 @@ def run(ctx):
                             (["FlagCase"] if pp["FlagTier"] != "none" else []), "mc/family-" + fam)
         return dump + ".dump"
 
+    max_hist = 3 if th else 2
+
+    def history(mut):
+        dump = os.path.join(ctx.tmp, "dl_hist" + mut)
+        r = ctx.tlc("DataLayoutHist", stage="hist/" + (mut or "histories"), cfg_text=hist_cfg(p, max_hist if not mut else 2, mut),
+                    workers=4 if th else 2, args=("-coverage", "1", "-dump", dump) if not mut else (),
+                    expect_violation="HistoryFree" if mut else None, count=not mut)
+        if not mut:
+            ctx.require_actions(r, ["HStep"], "hist")
+        return dump + ".dump"
+
     def rand(_):
         dump = os.path.join(ctx.tmp, "dl_rand")
         tlc_selected(ctx, tops, p, "random/tabulate", dump)
@@ -1262,6 +1428,7 @@ def run(ctx):
                                              ("flag_not_unmasked", "FlagLaws"), ("const_mask_from_init", "TypedInit"))]
         ff = [ex.submit(family, j) for j in families]
         fr = ex.submit(rand, None)
+        fh = [ex.submit(history, ""), ex.submit(history, "defaults_leak")]
         for f in fm:
             f.result()
         rand_dump = fr.result()
@@ -1271,6 +1438,12 @@ def run(ctx):
             add(t)
             ctx.cov["stages"]["mc/family-" + fam]["replayed"] = t
             os.unlink(dump)
+        hist_dump = fh[0].result()
+        fh[1].result()
+    t, n = dispatch(ctx, hist_dump, dict(opts, max_hist=max_hist), 200, acc, fn=_work_hist)
+    add(t)
+    ctx.cov["stages"]["hist/histories"]["replayed"] = t
+    os.unlink(hist_dump)
     t, n = dispatch(ctx, rand_dump, opts, 16 if th else 8, acc)
     add(t)
     ctx.cov["stages"]["random/tabulate"]["replayed"] = t
@@ -1312,7 +1485,7 @@ def run(ctx):
     need = ["layouts", "layouts_struct", "layouts_union", "layouts_array", "layouts_flex", "layouts_nested", "placement",
             "pairs", "class_pairs", "const_reads", "const_inits", "sim_pairs", "sim_reads", "sim_dyn_reads", "sim_assign",
             "sim_set", "rtlil_designs", "enums", "enum_round_trips", "flag_ops", "typed_const_inits", "class_defaults",
-            "sim_inits", "flag_classes", "flag_classes_invert_unspecified"]
+            "sim_inits", "flag_classes", "flag_classes_invert_unspecified", "histories", "history_steps"]
     for k in need:
         if totals.get(k, 0) == 0:
             raise MachineryError("vacuous run: nothing counted for %r (%r)" % (k, totals))
@@ -1342,6 +1515,9 @@ def run(ctx):
                "enum.Flag for every class" % (totals.get("flag_classes_invert_unspecified", 0), totals.get("flag_classes", 0)))
     ctx.assume("a | b, a & b, a ^ b of flag views are compared where Python defines the result (the bitwise result is a value "
                "of the class; a STRICT class with multi-bit members of their own bits refuses some combinations)")
+    ctx.assume("histories: %d-step histories of const / Signal / ctx.set / from_bits on ONE fresh data.Struct / data.Union class or "
+               "StructLayout object per history (10 classes incl. declared defaults, a nested Struct class with its own default, an "
+               "array field); state leaking between class objects of different histories is not covered" % max_hist)
     ctx.assume("dynamic indexing of array views: index < length, element width > 0, index signal at least one bit wide")
     ctx.assume("synthesis: the batched designs are converted with back.rtlil.convert (must elaborate); RTLIL semantics are "
                "judged by C04")
